@@ -4,6 +4,8 @@
 // normal build). Thin wrappers only: no logic of their own.
 package hsmsss
 
+import "github.com/arloliu/go-secs/v2/hsms"
+
 // VerifLinktestFailureStep exposes the pure failure reducer of the auto-linktest (C19).
 func VerifLinktestFailureStep(suppress bool, recvNow, sentAt, inflight int64, fails int, recvAtLastFail int64) (newFails int, newRecvAtLastFail int64, credited bool) {
 	return linktestFailureStep(suppress, recvNow, sentAt, inflight, fails, recvAtLastFail)
@@ -12,4 +14,13 @@ func VerifLinktestFailureStep(suppress bool, recvNow, sentAt, inflight int64, fa
 // VerifLinktestDisconnectRecheck exposes the pure pre-disconnect re-check decision (C19).
 func VerifLinktestDisconnectRecheck(suppress bool, inflight, recvNow, sentAt int64) bool {
 	return linktestDisconnectRecheck(suppress, inflight, recvNow, sentAt)
+}
+
+// VerifCore returns the shared hsms engine connection behind an hsmsss.Connection.
+func VerifCore(c Connection) hsms.Connection {
+	if cc, ok := c.(*connection); ok {
+		return cc.Connection
+	}
+
+	return nil
 }
